@@ -47,6 +47,8 @@ type c09Case struct {
 	NoGlobal bool `json:"no_global_middleware,omitempty"`
 	// PreError: the panicking handler records an error (AddError) before it panics
 	PreError bool `json:"error_recorded_before_panic,omitempty"`
+	// LateCaching: route caching is switched on by calling the option function on the router after its routes exist
+	LateCaching bool `json:"caching_switched_on_after_registration,omitempty"`
 }
 
 type c09Val struct{ A, B int }
@@ -243,6 +245,9 @@ func newC09Router(c c09Case) *c09Router {
 			cr.log = append(cr.log, "panic")
 			panic(val)
 		}
+	}
+	if c.LateCaching {
+		_ = try(func() { rux.EnableCaching(r) })
 	}
 	return cr
 }
@@ -447,6 +452,9 @@ func c09Gen(tier string, emit func(c09Case)) {
 									continue
 								}
 								emit(c09Case{Where: "chain", N: n, Split: sp, Pos: pos, When: when, Value: v, Hook: hk, PanicsMW: f&1 != 0, Committed: f&2 != 0, Twice: (n+pos)%2 == 0})
+								if f == 0 && vi == 2 {
+									emit(c09Case{Where: "chain", N: n, Split: sp, Pos: pos, When: when, Value: v, Hook: hk, LateCaching: true, Twice: true})
+								}
 								if f == 0 && vi == 1 {
 									emit(c09Case{Where: "chain", N: n, Split: sp, Pos: pos, When: when, Value: v, Hook: hk, Timeout: true})
 									emit(c09Case{Where: "chain", N: n, Split: sp, Pos: pos, When: when, Value: v, Hook: hk, WrapResp: true})
@@ -535,7 +543,7 @@ func c09Gen(tier string, emit func(c09Case)) {
 var c09Spec = fw.Spec[c09Case]{
 	ID:    "C09",
 	Level: "model_checking",
-	Rule: "complete product: chain shapes n<=3 (thorough 5) x every global/group/route split x every panic position x {before Next, after Next, without Next} x panic value {string, error, struct, http.ErrAbortHandler, int} x hook {absent, does nothing, status only, status+body, body only, AbortWithStatus(503, message), status + re-dispatch to an error-page route, a JSON document through the JSON helper (the last two also after the handler recorded an error)} x {PanicsHandler middleware} x {a byte committed before the panic} (+ the panic request issued twice) (+ the router mounted behind a front router that passes its context on with HandleContext) (+ under the Timeout middleware with a deadline that is far away / has already passed) (+ on a caller's writer without Flush) (+ the panicking handler calls Abort first) (+ handlers.ConsoleLogger first in the chain with the request's path on its skip list) (+ the panic raised by the caller's ResponseWriter when the handler commits status 99) (+ the panic raised by a value's MarshalJSON inside the JSONP helper) (+ the panic raised by WriteString on a caller's writer that refuses every byte), plus panics inside global middleware around the built-in 404 / 405 responders and inside NotFound / NotAllowed / OnError handlers (NotFound / NotAllowed also on a router without any global middleware); each followed by every one of 15 follow-up request kinds compared with a fresh identical router; " +
+	Rule: "complete product: chain shapes n<=3 (thorough 5) x every global/group/route split x every panic position x {before Next, after Next, without Next} x panic value {string, error, struct, http.ErrAbortHandler, int} x hook {absent, does nothing, status only, status+body, body only, AbortWithStatus(503, message), status + re-dispatch to an error-page route, a JSON document through the JSON helper (the last two also after the handler recorded an error)} x {PanicsHandler middleware} x {a byte committed before the panic} (+ the panic request issued twice) (+ the router mounted behind a front router that passes its context on with HandleContext) (+ under the Timeout middleware with a deadline that is far away / has already passed) (+ on a caller's writer without Flush) (+ the panicking handler calls Abort first) (+ route caching switched on by calling the option function after the routes exist) (+ handlers.ConsoleLogger first in the chain with the request's path on its skip list) (+ the panic raised by the caller's ResponseWriter when the handler commits status 99) (+ the panic raised by a value's MarshalJSON inside the JSONP helper) (+ the panic raised by WriteString on a caller's writer that refuses every byte), plus panics inside global middleware around the built-in 404 / 405 responders and inside NotFound / NotAllowed / OnError handlers (NotFound / NotAllowed also on a router without any global middleware); each followed by every one of 15 follow-up request kinds compared with a fresh identical router; " +
 		"every case is non-trivial (a panic is raised in each)",
 	Assume: []string{"for the in-chain PanicsHandler only 'the panic does not escape' and 'follow-ups are unaffected' are asserted (the statement promises nothing else for it)", "when the hook sets no status, any single committed status is accepted"},
 	Bounds: func(tier string) map[string]any {
